@@ -1,0 +1,32 @@
+// Verification hooks.  Compiled only with `--cfg flacenc_verif`; never part of a normal build.
+//
+// This module re-exports thin wrappers around crate-private units so that an external
+// harness can compare them with a formal model, and provides the scheduling/event hook used
+// by the multi-threaded encoder.
+
+pub use crate::arrayutils::verif_hooks as arrayutils;
+pub use crate::coding::verif_hooks as coding;
+pub use crate::component::verif_hooks as bitrepr;
+pub use crate::lpc::verif_hooks as lpc;
+pub use crate::rice::verif_hooks as rice;
+
+use std::sync::RwLock;
+
+/// Callback invoked at every scheduling point of `par.rs`: `(event name, a, b)`.
+pub type EventFn = fn(&'static str, usize, usize);
+
+static EVENT_HOOK: RwLock<Option<EventFn>> = RwLock::new(None);
+
+/// Installs (or removes) the event callback.
+pub fn set_event_hook(f: Option<EventFn>) {
+    *EVENT_HOOK.write().unwrap() = f;
+}
+
+/// Reports an event; the callback may log it and may delay/yield the calling thread.
+#[inline]
+pub fn event(name: &'static str, a: usize, b: usize) {
+    let f = *EVENT_HOOK.read().unwrap();
+    if let Some(f) = f {
+        f(name, a, b);
+    }
+}
